@@ -8,11 +8,17 @@ a small pool that overlaps the context keys and the variables of enclosing loops
 ordinary cases.
 
 Compared: the event stream FlowParser acts on (row instantiated / row handed to _parse_row with
-its rendered id and text / _parse_block entered with block type and omit flag / group registered
-under the head's id) and the templating context that is left when the sheet has been read —
-plus the ORACLES the property states, evaluated on the implementation alone:
+its rendered id and text / _parse_block entered with block type and omit flag / NodeGroup pushed /
+group registered under the head's id) and the templating context that is left when the sheet has
+been read; the model's DESUGARING of the sheet (Comp/Desugar.v, wire engine 103 — the function the
+unrolling theorem C03_desugar_equiv is about) against the reference desugaring written here from
+Appendix B (reference_desugar) — plus the ORACLES the property states, evaluated on the
+implementation alone:
   * lexical scope: the context after the sheet is exactly the context before it,
-  * nothing inside an excluded block or a loop over nothing is instantiated."""
+  * nothing inside an excluded block or a loop over nothing is instantiated,
+  * the rows handed on are those of the unrolled, lexically scoped reading,
+  * the theorem's own statement: the desugared sheet is accepted from the EMPTY context and
+    FlowParser is handed the same rows and pushes / registers the same groups in the same order."""
 import csv
 import io
 
